@@ -176,6 +176,15 @@ def guardOK (k : Kind) (cs : List Const) (cur : Name → Option Int) : Bool :=
 
 def parseEnum (vm : List (Name × Int)) (s : Name) : Option Int := vm.lookup s
 
+/-- `ParseEnum[T](s)` evaluated in a package-level variable initializer of the enum's own package
+    (`var Default, err = shoot.ParseEnum[Color]("Green")`): Go orders package-level initialization by
+    the references it can see INSIDE the package; the read of `_t_value_map` happens behind the generic
+    call (`t.ValueMap()` on a type parameter, in package shoot), so the dependency is invisible and the
+    variable is initialized in file order — before the map literal of the generated file whenever its
+    file sorts first (`a.go` < `a.shootenum.color.go`).  The map is still nil: nothing is found.
+    (`_t_values`, a slice literal of constants, is laid out statically, so IsEnum works.) -/
+def parseEnumAtInit (_vm : List (Name × Int)) (_s : Name) : Option Int := none
+
 /-- `TryParseEnum(s, &target)`: (result, target afterwards) -/
 def tryParseEnum (vm : List (Name × Int)) (s : Name) (target : Int) : Bool × Int :=
   match parseEnum vm s with
